@@ -110,7 +110,11 @@ func (e *Engine) Solve(obls []*Obligation, cfg SolveCfg) {
 		go func() {
 			defer wg.Done()
 			for j := range ch {
-				r := solveOne(j.qf, cfg)
+				c1 := cfg
+				if j.o.Cover && c1.TimeoutS > 4 {
+					c1.TimeoutS = 4 // vacuity guards only need to fail to be refuted quickly
+				}
+				r := solveOne(j.qf, c1)
 				r.Phase = "qf-inst"
 				if j.o.Cover {
 					j.o.Result = r
